@@ -881,7 +881,14 @@ def g1_size_facts(ctx: Ctx):
     c13.g2_size_facts_unconditional(ctx)
 
 
+def g2_alias_routes(ctx: Ctx):
+    # a store through one name widens the format of every name of the same list: which names those are is the alias
+    # analysis' word, decided in c13
+    c13.x2_alias_routes(ctx)
+
+
 RULES = [
+    Rule('C14.G2', 'the alias regions a store is replayed on link every construct that shares a list (= C13.X2)', g2_alias_routes, 36, 'G'),
     Rule('C14.G1', 'a list length format inference relies on is constrained only where every execution passes (= C13.G2, array sizes)', g1_size_facts, 15, 'G'),
     Rule('C14.T9', 'an exact sum / difference / sum() is taken by a round-toward-negative scope only if it admits -0 or cannot be zero', t9_zero_sums, 4, 'T'),
     Rule('C14.T8', 'the element format of range(start, stop, step) holds every element, whichever way the range runs', t8_range_elements, 1, 'T'),
@@ -899,6 +906,9 @@ RULES = [
 from ..selftest import Mutant  # noqa: E402
 
 MUTANTS = [
+    Mutant('merge-points-unified-for-plain-lists-only', 'fpy2/analysis/alias.py', "            if not _carries_list(self.types.by_def.get(d)):\n                continue\n            for i in same_object_defs(d):",
+           "            if not isinstance(self.types.by_def.get(d), ListType):\n                continue\n            for i in same_object_defs(d):", 'C14.G2',
+           'seeded change C14e: t = (xs, 0); if c: t = (ys, 1); a, k = t; a[0] = x -- xs[0] keeps the literal set'),
     Mutant('zero-bound-times-unbounded-is-nan', FMT, "            return b if b == 0 else a if a == 0 else a * b\n", "            return a * b\n", 'C14.T1',
            'finding F77 before its repair: {-2} * integers has NaN bounds and is "contained" in every bounded scope'),
     Mutant('partial-fit-bounds-off-the-grid', ANA, "        if exact.prec > scope_af.prec or exact.exp < scope_af.exp:", "        if exact.prec > scope_af.prec:", 'C14.T5',
